@@ -162,7 +162,7 @@ Proof. reflexivity. Qed.
 
 (* ---- the tag set each list query receives: exactly the tag arguments of the model
    (blocker_check_p: importants, tagged, exceptions on BOTH paths read the enabled set, filters []
-   ; redirect_hits / removeparam_hits / generic_hide_hit: [] ; csp_hits: the enabled set) *)
+   ; redirect_hits / removeparam_hits: [] ; csp_hits and generic_hide_hit: the enabled set) *)
 Definition site_uses_tags (fn lst : string) : list bool :=
   flat_map (fun s => match s with (f, l, _, t) => if String.eqb f fn && String.eqb l lst then [t] else [] end) tag_sites.
 Theorem tag_sites_are_model :
@@ -172,7 +172,7 @@ Theorem tag_sites_are_model :
   /\ site_uses_tags "check_parameterised" "exceptions" = [true; true]
   /\ site_uses_tags "check_parameterised" "redirects" = [false]
   /\ site_uses_tags "get_csp_directives" "csp" = [true]
-  /\ site_uses_tags "check_generic_hide" "generic_hide" = [false]
+  /\ site_uses_tags "check_generic_hide" "generic_hide" = [true]
   /\ site_uses_tags "apply_removeparam" "removeparam_filters" = [false]
   /\ removeparam_source = "removeparam"
   /\ length tag_sites = 9%nat.
